@@ -43,7 +43,10 @@ UpperOf == ("A" :> "a") @@ ("B" :> "b") @@ ("C" :> "c") @@ ("D" :> "d") @@ ("E" 
            @@ ("X" :> "x") @@ ("O" :> "o") @@ ("U" :> "u") @@ ("L" :> "l")
 IsUpper(c) == c \in DOMAIN UpperOf
 Low(c) == IF IsUpper(c) THEN UpperOf[c] ELSE c
-IsWs(c) == c \in {" ", "\t", "\n"}
+\* Characters outside ASCII reach the spec as CLASS tags (the recorder maps them; TLC never sees the code points): "<Zs>" a Unicode space (str.strip
+\* removes it: tolerated like a blank), "<Nd>" a decimal digit of another script, "<No>" another numeric character, "<L>" a letter - none of the last
+\* three is a digit of the grammar, whatever a regular-expression class or int() may think of them.
+IsWs(c) == c \in {" ", "\t", "\n", "<Zs>"}
 Dig(c, b) == c \in DOMAIN DV /\ DV[c] < b
 GoodSuffixes == {<<>>, <<"u">>, <<"l">>, <<"u","l">>, <<"l","u">>, <<"l","l">>, <<"u","l","l">>, <<"l","l","u">>}
 
@@ -136,11 +139,17 @@ HexString(s, size) ==                              \* s: sequence of lower/upper
               IN [i \in 1..size |-> DV[Low(z[2 * i - 1])] * 16 + DV[Low(z[2 * i])]]]
   ELSE [k |-> "err"]
 
+\* ------------------------------------------------------------------ hex strings of an expected size (FILE form)
+\* a.kind = "text": the file holds hexadecimal text (a.s, optional 0x inside a.s stripped by the recorder) - the literal contract applies;
+\* a.kind = "bin" : the file holds a.d, bytes that are NOT valid UTF-8 text: they are the key itself, of exactly the expected size
+HexFile(a) == IF a.kind = "text" THEN HexString(a.s, a.size)
+              ELSE IF Len(a.d) = a.size /\ a.size >= 1 THEN [k |-> "ret", v |-> a.d] ELSE [k |-> "err"]
+
 \* ------------------------------------------------------------------ the contract table
 Ret(v) == [k |-> "ret", v |-> v]
 Err == [k |-> "err"]
 Expected(fn, a) ==
-  CASE fn = "value_to_int_str"   -> ParseNumber(a.s)
+  CASE fn \in {"value_to_int_str", "value_to_int_uni"} -> ParseNumber(a.s)
     [] fn = "value_to_int_bytes" -> Ret([neg |-> FALSE, m |-> BigOfBE(a.b)])
     [] fn = "align"              -> IF a.a <= 0 THEN Err ELSE Ret(Align(a.n, a.a))
     [] fn = "align_big"          -> IF a.a <= 0 THEN Err ELSE Ret(AlignBig(a.n, a.a))
@@ -162,6 +171,7 @@ Expected(fn, a) ==
     [] fn = "blk_align"          -> Ret(Align(a.n, 16))
     [] fn = "blk_to_num"         -> IF a.n % 16 # 0 THEN Err ELSE Ret(a.n \div 16)
     [] fn = "hex_string"         -> HexString(a.s, a.size)
+    [] fn = "hex_file"           -> HexFile(a)
 
 Conforms(o) ==
   LET e == Expected(o.fn, o.a)
